@@ -29,6 +29,9 @@ func scaleCases(tier string) []scalekit.Case {
 	for _, n := range scale.Sizes(40, 257) {
 		out = append(out, scalekit.Case{Shape: "many-deviations", N: n})
 	}
+	for _, n := range scale.Sizes(40, 129) {
+		out = append(out, scalekit.Case{Shape: "many-imports", N: n})
+	}
 	return out
 }
 
@@ -78,6 +81,24 @@ func flatTree(e *yang.Entry) map[string]string {
 }
 
 func checkScale(cs scalekit.Case) scalekit.Verdict {
+	if cs.Shape == "many-imports" {
+		// a deviating module with n imports (prefixes that sort unlike the module names) and one
+		// deviation through each prefix
+		ms, errs, lerr := scalekit.Load(scale.Imports(cs.N), false)
+		if lerr != nil {
+			return scalekit.Bad("load-error", "loads", lerr.Error())
+		}
+		if len(errs) > 0 {
+			return scalekit.Bad("applicable-deviation-reported", "no errors", dump.Errors(errs))
+		}
+		for i := 1; i <= cs.N; i++ {
+			c := yang.ToEntry(ms.Modules[fmt.Sprintf("lib%d", i)]).Dir["c"]
+			if c == nil || c.Config != yang.TSFalse {
+				return scalekit.Bad("deviation-misplaced", fmt.Sprintf("/lib%d:c config false (prefix %s)", i, scale.ImportPrefix(cs.N, i)), "not applied")
+			}
+		}
+		return scalekit.OK()
+	}
 	if cs.Shape == "many-deviations" {
 		return checkManyDeviations(cs)
 	}
